@@ -141,7 +141,7 @@ func (g *G) lookAlike(u urlParts) string {
 	v := u
 	v.segs = append([]string{}, u.segs...)
 	for tries := 0; tries < 8; tries++ {
-		switch g.r.Intn(16) {
+		switch g.r.Intn(17) {
 		case 0: // other scheme, same text otherwise
 			v.scheme = map[string]string{"http": "https", "https": "http"}[u.scheme]
 		case 1: // boundary shift scheme|host: http://sX  vs  https://X
@@ -229,6 +229,11 @@ func (g *G) lookAlike(u urlParts) string {
 			w := u
 			w.segs = append([]string{pick(g, "..", "%2e%2E", "."), ""}, u.segs...)
 			return w.String()
+		case 16: // a query that is present and empty: "/p?" is not "/p" (RFC 3986 §6.2.3)
+			if u.query != "" {
+				continue
+			}
+			return u.String() + "?"
 		case 13: // bracket placement of an IP literal
 			if strings.HasPrefix(u.host, "[") && u.port != "" {
 				v.host, v.port = u.host[:len(u.host)-1]+":"+u.port+"]", ""
